@@ -526,7 +526,7 @@ def jobs(tier):
         have = set(decks)
         decks = [d for d in QUICK_DECKS if d in have]
     js = [{"kind": "single", "deck": d} for d in decks]
-    js += [{"kind": "pairs", "deck": d, "n": 400 if tier == "thorough" else 40} for d in decks]
+    js += [{"kind": "pairs", "deck": d, "n": 400 if tier == "thorough" else 150} for d in decks]
     js.append({"kind": "nonpackage"})
     if tier == "thorough":
         # coverage-guided supplement (atheris): 4 independent campaigns with different libFuzzer seeds
